@@ -192,8 +192,36 @@ func c02RemoteBody(c *mc.Ctx, media string) {
 	rs := envenc.NewRemoteSigner(key, pki.X509s(chain))
 	rs.Spec = spec
 	want := pki.Supported(key.Kind) && envenc.SpecOf(key) == spec
-	c.Statef("key=%s spec=%v/%d accept=%v", key.Kind, st, sz, want)
-	env, err, pan := signWith(media, rs, signature.SigningSchemeX509)
+	// the envelope object is either new, or was already used for a successful signing with a leaf whose key *is* the declared spec
+	reuse := c.ChooseFree("envelope-object", 2) == 1
+	c.Statef("key=%s spec=%v/%d reusedObject=%v accept=%v", key.Kind, st, sz, reuse, want)
+	var env []byte
+	var err error
+	var pan any
+	primeKey := map[string]string{"ES256": "p256-f", "ES384": "p384-b", "ES512": "p521-b", "PS256": "rsa2048-c", "PS384": "rsa3072-b", "PS512": "rsa4096-b"}[envenc.AlgOfSpec(spec)]
+	if reuse && primeKey != "" {
+		func() {
+			defer func() {
+				if r := recover(); r != nil {
+					pan = r
+				}
+			}()
+			e, nerr := signature.NewEnvelope(media)
+			if nerr != nil {
+				panic(mc.HarnessError{Msg: nerr.Error()})
+			}
+			mk := func(s signature.Signer) *signature.SignRequest {
+				return &signature.SignRequest{Payload: signature.Payload{ContentType: "application/vnd.cncf.notary.payload.v1+json", Content: []byte(`{"k":"v"}`)}, Signer: s, SigningTime: pki.Now, SigningScheme: signature.SigningSchemeX509}
+			}
+			if _, perr := e.Sign(mk(envenc.NewRemoteSigner(pki.K(primeKey), pki.X509s(chainFor(primeKey))))); perr != nil {
+				panic(mc.HarnessError{Msg: "priming signature failed: " + perr.Error()})
+			}
+			e.Verify()
+			env, err = e.Sign(mk(rs))
+		}()
+	} else {
+		env, err, pan = signWith(media, rs, signature.SigningSchemeX509)
+	}
 	ok := err == nil && pan == nil && env != nil
 	c.Outcome(fmt.Sprintf("remote-sign-accepted=%v", ok))
 	c.Tracef("%s remote signer: certificate key %s, declared spec {%v %d} -> err=%v", media, key.Kind, st, sz, err)
@@ -314,7 +342,7 @@ func c02Scenarios(tier mc.Tier) []mc.Scenario {
 			sch := sch
 			out = append(out, mc.Scenario{Name: "C02-verify-" + mediaShort(m) + "-" + sch, Bound: -1, Body: func(c *mc.Ctx) { c02VerifyBody(c, m, sch) }, Params: map[string]string{"format": m, "path": "verify", "scheme": sch}})
 		}
-		out = append(out, mc.Scenario{Name: "C02-remote-signer-" + mediaShort(m), Bound: -1, Expect: int64(len(c02LeafKeys) * len(c02SpecTypes) * len(c02SpecSizes)), Body: func(c *mc.Ctx) { c02RemoteBody(c, m) }, Params: map[string]string{"format": m, "path": "remote signer"}})
+		out = append(out, mc.Scenario{Name: "C02-remote-signer-" + mediaShort(m), Bound: -1, Expect: int64(2 * len(c02LeafKeys) * len(c02SpecTypes) * len(c02SpecSizes)), Body: func(c *mc.Ctx) { c02RemoteBody(c, m) }, Params: map[string]string{"format": m, "path": "remote signer"}})
 		out = append(out, mc.Scenario{Name: "C02-local-signer-" + mediaShort(m), Bound: -1, Body: func(c *mc.Ctx) { c02LocalBody(c, m) }, Params: map[string]string{"format": m, "path": "local signer"}})
 	}
 	out = append(out, mc.Scenario{Name: "C02-tables", Bound: -1, Expect: 10 * 4 * 10, Body: c02TableBody})
